@@ -25,8 +25,61 @@ fn enc_mode(s: &Setup, plain: &Plaintext, mode: i32) -> Ciphertext {
     }
 }
 
+/// plaintext coefficients that sit on the boundaries of the word arithmetic inside `multiply_add_plain`:
+/// (q mod t)·m + (t+1)/2 just below / at / above multiples of 2^64 (carry into the high word), and the usual extremes
+fn carry_boundary_coeffs(r: &mut Rng, t: u64, q_mod_t: u64) -> Vec<u64> {
+    let mut v = vec![0, 1, t - 1, t / 2, (t + 1) / 2, t.saturating_sub(2)];
+    if q_mod_t > 0 {
+        for k in 1u128..=6 {
+            let base = ((k << 64) - 1) / q_mod_t as u128;
+            for d in [0i128, -1, 1, -2, 2] { let m = base as i128 + d; if m >= 0 && (m as u128) < t as u128 { v.push(m as u64); } }
+            let half = (t as u128 + 1) / 2;
+            let b2 = ((k << 64) - half) / q_mod_t as u128;
+            for d in [0i128, 1, 2] { let m = b2 as i128 + d; if m >= 0 && (m as u128) < t as u128 { v.push(m as u64); } }
+        }
+    }
+    for _ in 0..6 { v.push(r.below(t)); }
+    v
+}
+
+/// `multiply_add_plain` / `multiply_sub_plain` called directly (hook re-export) on wide and narrow plain moduli
+fn scaling_cases(out: &mut Out, r: &mut Rng, thorough: bool) {
+    use heathcliff::verif::scaling_variant as sv;
+    for _ in 0..(if thorough { 60 } else { 10 }) {
+        let lg = r.range(3, 5) as usize; let n = 1usize << lg;
+        let k = r.range(1, 3) as usize;
+        let bits: Vec<usize> = (0..k).map(|_| *r.pick(&[45usize, 58, 59, 60])).collect();
+        let qs = match pick_primes(r, n, &bits) { Some(v) => v, None => continue };
+        // wide plain moduli (> 2^32) as well as the usual ones; must stay below the product and coprime to it
+        let t = match r.below(5) { 0 => 1u64 << r.range(33, 44), 1 => (3u64 << r.range(33, 42)) + 1, 2 => { let b = r.range(34, 44) as u32; r.bits(b) | 1 } 3 => 1u64 << r.range(2, 20), _ => pick_plain(r, n, 0, &qs) };
+        if qs.iter().any(|&q| gcd(q, t) != 1) || (k == 1 && t >= qs[0]) { continue; }
+        let s = match make(SchemeType::BFV, n, &qs, t, false, None) { Some(s) => s, None => continue };
+        let cd = s.ctx.first_context_data().unwrap();
+        let lqs = s.level_qs(cd.parms_id());
+        let q_mod_t = cd.coeff_modulus_mod_plain_modulus();
+        let cand = carry_boundary_coeffs(r, t, q_mod_t);
+        let coeffs: Vec<u64> = (0..n).map(|i| cand[(i + r.below(3) as usize) % cand.len()]).collect();
+        let mut plain = Plaintext::new(); plain.resize(n); plain.data_mut().copy_from_slice(&coeffs);
+        let dest: Vec<Vec<u64>> = lqs.iter().map(|&q| (0..n).map(|_| if r.chance(1, 4) { q - 1 } else { r.below(q) }).collect()).collect();
+        let flat: Vec<u64> = dest.iter().flatten().copied().collect();
+        let cls = format!("scaling-t{}b-k{}", 64 - t.leading_zeros(), lqs.len());
+        for sub in [false, true] {
+            out.case(&format!("multiply_add_plain {} {} {} {} {} {}", sub as u8, n, fl(&lqs), t, fl(&coeffs), fl2(&dest)), &cls, || {
+                let mut d = flat.clone(); if sub { sv::multiply_sub_plain(&plain, &cd, &mut d); } else { sv::multiply_add_plain(&plain, &cd, &mut d); }
+                fl2(&d.chunks(n).map(|c| c.to_vec()).collect::<Vec<_>>()) });
+        }
+        // and end to end: fresh encryptions of these plaintexts must decrypt to them
+        for mode in 0..2 {
+            let ct = enc_mode(&s, &plain, mode);
+            let trimmed = { let mut c = coeffs.clone(); while c.len() > 1 && *c.last().unwrap() == 0 { c.pop(); } c };
+            out.case(&format!("fresh {} {} {}", s.ct_case(&ct), mode, fl(&trimmed)), &format!("{}-m{}", cls, mode), || s.dec_str(&ct));
+        }
+    }
+}
+
 pub fn run(out: &mut Out, thorough: bool, seed: u64, _extra: &[String]) {
     let mut r = Rng::new(seed);
+    scaling_cases(out, &mut r, thorough);
     let reps = if thorough { 120 } else { 14 };
     for rep in 0..reps {
         let lg = r.range(1, if thorough { 7 } else { 5 }) as usize; let n = 1usize << lg;
@@ -68,7 +121,8 @@ pub fn run(out: &mut Out, thorough: bool, seed: u64, _extra: &[String]) {
                 let ct = enc_mode(&s, &plain, mode);
                 out.case(&format!("fresh {} {} {}", s.ct_case(&ct), mode, fl(&trimmed)), &format!("{}-p{}-m{}", cls, pk, mode), || s.dec_str(&ct));
                 if rep % 3 == 0 && pk == 6 {
-                    out.case(&format!("budget {}", s.ct_case(&ct)), &format!("{}-m{}", cls, mode), || s.decryptor.invariant_noise_budget(&{ let mut c = ct.clone(); if c.is_ntt_form() { s.evaluator.transform_from_ntt_inplace(&mut c); } c }).to_string());
+                    let view = if ct.is_ntt_form() { s.evaluator.transform_from_ntt_new(&ct) } else { ct.clone() };
+                    out.case(&format!("budget {}", s.ct_case(&view)), &format!("{}-m{}", cls, mode), || s.decryptor.invariant_noise_budget(&view).to_string());
                 }
             }
             // encryptions of zero at every level
